@@ -137,6 +137,9 @@ def extract_tableau(
     bx, by = NF.atom(base[0]), NF.atom(base[1])
     for st in tab.stages:
         rowx, rowy = [], []
+        if not (isinstance(st.px, NF) and isinstance(st.py, NF)):
+            tab.problems.append(f"stage {st.k}: the stage position depends on a run-time branch: {st.px!r}"[:200])
+            continue
         dx = st.px - bx
         dy = st.py - by
         resx, resy = dx, dy
